@@ -1354,6 +1354,10 @@ def _term_terminate_ok():
     u = _src(find("multi.py", "Group._unregister"))
     ok = ok and "self._gateways.remove(gateway)" in u and "self._gateways_to_join.append(gateway)" in u
     ok = ok and "self.popen.kill()" in _src(find("gateway_io.py", "Popen2IOMaster.kill")) and "return self.popen.wait()" in _src(find("gateway_io.py", "Popen2IOMaster.wait"))
+    # makegateway registers the gateway as soon as it exists, BEFORE the remote configuration step that may fail
+    mk = _src(find("multi.py", "Group.makegateway"))
+    i, j = mk.find("gw.spec = spec\n    self._register(gw)"), mk.find("if spec.chdir or spec.nice or spec.env:")
+    ok = ok and 0 <= i < j and mk.count("self._register(gw)") == 1
     return "true" if ok else "false"
 
 
